@@ -1442,6 +1442,11 @@ namespace awkward {
   NumpyArray::getitem_next(const SliceItemPtr& head,
                            const Slice& tail,
                            const Index64& advanced) const {
+    if (!iscontiguous()) {
+      // the strided implementation below allocates carry.length()*stride
+      // bytes: a negative stride (reversed view) asked for ~2^64 bytes
+      return contiguous().getitem_next(head, tail, advanced);
+    }
     Index64 carry(shape_[0]);
     struct Error err = kernel::carry_arange<int64_t>(
       kernel::lib::cpu,   // DERIVE
